@@ -9,7 +9,8 @@ import Spydr.Names.Spec
 namespace Spydr.Names
 
 def observeOne (s : Sib) : Spec.Obs :=
-  { name := s.name, ident := s.ident.getD [], rename := s.rename, assigned := s.assigned }
+  { name := s.name, ident := s.ident.getD [], rename := s.rename, assigned := s.assigned,
+    bits := s.bits }
 
 def observe (l : List Sib) : List Spec.Obs := l.map observeOne
 
